@@ -198,7 +198,7 @@ def run(ctx: Ctx) -> None:
     with Taps(ctx) as taps:
         install(taps, ctx)
         # ---- round trips and pose transforms ----
-        for idx in ctx.indices("roundtrip", 2000 if ctx.quick else 60000):
+        for idx in ctx.indices("roundtrip", 2000 if ctx.quick else 400000):
             with ctx.case_guard("roundtrip"):
                 r = ctx.rng("roundtrip", idx)
                 q, cls = rand_rotation(r)
@@ -225,7 +225,7 @@ def run(ctx: Ctx) -> None:
                 ctx.case(("roundtrip", cls, kind), nontrivial=ang > 1e-3 and any(t), sample=dict(q=q, t=t, kind=kind) if idx < 3 else None)
 
         # ---- chains ----
-        for idx in ctx.indices("chain", 800 if ctx.quick else 30000):
+        for idx in ctx.indices("chain", 800 if ctx.quick else 200000):
             with ctx.case_guard("chain"):
                 r = ctx.rng("chain", idx)
                 L = r.randint(2, 5)
@@ -270,7 +270,7 @@ def run(ctx: Ctx) -> None:
             return transform
 
         taps.method(TransformDict, "transform", dict_transform_factory)
-        for idx in ctx.indices("registry", 1500 if ctx.quick else 40000):
+        for idx in ctx.indices("registry", 1500 if ctx.quick else 300000):
             with ctx.case_guard("registry"):
                 r = ctx.rng("registry", idx)
                 n = r.randint(1, 5)
@@ -352,7 +352,7 @@ def run(ctx: Ctx) -> None:
         # ---- registry histories: queries interleaved with re-registration, deletion and copies
         import copy as _copy
 
-        for idx in ctx.indices("registry_history", 300 if ctx.quick else 30000):
+        for idx in ctx.indices("registry_history", 300 if ctx.quick else 200000):
             with ctx.case_guard("registry_history"):
                 r = ctx.rng("registry_history", idx)
                 frames = r.sample(FRAMES, r.randint(2, 4))
